@@ -173,5 +173,5 @@ def check_gbs_history(case):
 SHARDS = {"quick": 8, "thorough": 16}
 ORACLES = [
     Oracle("apply_gbs_reference", gbs_case(), check_gbs_function, quick=3000, thorough=20000),
-    Oracle("history_floor", gbs_history_case(), check_gbs_history, quick=64, thorough=400, shrink_seconds=180),
+    Oracle("history_floor", gbs_history_case(), check_gbs_history, quick=128, thorough=1200, shrink_seconds=180),
 ]
